@@ -461,7 +461,21 @@ def sp_maze_equal(interp, st, args, kwargs, node):
     return b_and(*out)
 
 
+def sp_rgb_is(interp, st, args, kwargs, node):
+    """rgb_is(img, p, q, colour): the pixel (p, q) of an (H, W, 3) image has the given colour triple"""
+    img, p, q, colour = args
+    if isinstance(colour, Arr):
+        colour = tuple(colour.flat)
+    return b_and(*[M.s_cmp(ast.Eq(), M.getitem(interp, st, img, (p, q, c), node), colour[c]) for c in range(3)])
+
+
+def sp_has_field(interp, st, args, kwargs, node):
+    return isinstance(args[0], Rec) and args[1] in args[0].fields
+
+
 SPEC_FUNCTIONS = {
+    "rgb_is": sp_rgb_is,
+    "has_field": sp_has_field,
     "maze_equal": sp_maze_equal,
     "psum_monotone": sp_psum_monotone,
     "psum": sp_psum,
